@@ -745,7 +745,7 @@ def run(res: Results, idx: Index, tier: str) -> None:
     rule_f(res, idx, m, passes)
     rule_f_inner(res, idx, m)
     rule_g(res, idx, m)
-    rule_h(res, idx, m)
+    rule_h(res, idx, m, tier)
     if not getattr(res, "_nested_xref", False):
         rule_i(res, idx, tier)
     rule_j(res, idx, m)
@@ -929,7 +929,7 @@ def rule_g(res: Results, idx: Index, m: Module) -> None:
 
 
 # ---------------------------------------------------------------------------------------------- R-C02h
-def rule_h(res: Results, idx: Index, m: Module) -> None:
+def rule_h(res: Results, idx: Index, m: Module, tier: str = "quick") -> None:
     """Semantic helpers the preconditions rely on, decided on their whole (small) finite domain by evaluating
     their expression trees: _is_inverse_perm(p1, p2) must hold exactly when Transpose(Transpose(x, p1), p2) == x."""
     import itertools
@@ -942,7 +942,7 @@ def rule_h(res: Results, idx: Index, m: Module) -> None:
     key = _key(f, "semantics")
     n = 0
     try:
-        for r in range(1, 5):
+        for r in range(1, 5 if tier != "thorough" else 6):
             perms = [list(p) for p in itertools.permutations(range(r))]
             for p1 in perms:
                 for p2 in perms:
@@ -967,4 +967,4 @@ def rule_h(res: Results, idx: Index, m: Module) -> None:
     except EvalRaise as e:
         res.unresolved("R-C02h", f"{OPT}:{f.node.lineno}", key, f"raises {e.name} on a valid permutation pair", f.qualname)
         return
-    res.ok("R-C02h", f"{OPT}:{f.node.lineno}", key, f"sound on all {n} permutation pairs of rank 1..4", f.qualname)
+    res.ok("R-C02h", f"{OPT}:{f.node.lineno}", key, f"sound on all {n} permutation pairs of rank 1..{4 if tier != 'thorough' else 5}", f.qualname)
